@@ -59,3 +59,15 @@ type PrefixedDB struct {
 }
 
 func (PrefixedDB) Prefix() string { return "db" }
+
+// A configuration struct with an untagged embedded struct: the embedded struct's members sit under its own key
+// (db.pool.size), not among the keys of the embedding struct (db.size).
+type PoolCfg struct {
+	Size    int
+	Backend string
+}
+type DBCfg struct {
+	PoolCfg
+	Size int
+	Name string
+}
